@@ -71,8 +71,8 @@ class C01(S.SchedCheck):
     design_ref = "DESIGN.md §5 C01, Appendix A.1"
     technique = ("Lean 4 theorems over an executable model of Doist/DoDoer/Doer (nested generator scheduler, deque+marker as zipper), "
                  "tied to hio.base.doing by a seeded differential run of the compiled model; lifecycle automaton as independent oracle on the real trace")
-    level_text = "see notes/Sched.md"   # overwritten below
-    level_note = ""
+    level_text = ('Lean theorems, for every time type, every program (forest of doers incl. nested DoDoers with own extend pools), every tock/start/limit and every fuel: lifecycle_wf (strict automaton enter.recur*.(clean|cease|abort).exit per doer id, restartable after exit, final state idle; extend and remove allowed; hypotheses: all ids of the program distinct, no pool doer removes itself, no script raises KeyboardInterrupt), lifecycle_wf_weak (same without the KeyboardInterrupt hypothesis for the automaton that also accepts exit straight from running), lifecycle_wf_partial / lifecycle_wf_weak_partial (no-extend programs, only the entered ids distinct). The strict property is proved to FAIL with KeyboardInterrupt (lifecycle_kbint_skips_abort, decide) = known finding C01-K1 (pre-finding F01). All exit paths named by the property (completion, limit, raise at any step, removal, failing enter in do() and inside extend(), KeyboardInterrupt) are cases of the one universally quantified theorem. The hand-written model is tied to hio.base.doing by the differential run (string equality of the whole trace incl. observed tymes, flags, done, tyme, raised, doers).')
+    level_note = ('Trusted: Lean kernel + propext/Classical.choice/Quot.sound; that the sampled correspondence (five Python doer shapes, random forests + regression corpus + exhaustive single-fault scope in thorough) is representative; F04 (enter failing inside extend) and F05/F06 (duplicates) were repaired on fix/sched and the model follows the repaired code; KeyboardInterrupt inside enter and CPython GC finalisation are not modelled (the adapter reports GC-only exits as `late`).')
     rule = ("random doer forests (depth<=3, <=~12 doers, scripts<=6 steps, five Python doer shapes, yields None/0/fractions and multiples of the tock, "
             "DoDoer tock 0/non-zero/always, per-scheduler extend pools, extend/remove ops, raise/kbint/failing enter planted per step, limits incl. 0/negative/non-multiples) "
             "+ regression corpus (F01-F07) + thorough: exhaustive single-fault scope.  non-trivial = >=12 events and (do() raised or a forced close / remove / extend happened); distinct by request line")
